@@ -104,3 +104,171 @@ Example honest_replies_accepted :
         [mkTx 0 [100] [2] [] [1; 21000] [mkLog 0 [7]] []; mkTx 1 [101] [2] [] [1; 21000] [mkLog 1 [7]] []];
       mkBlock 6 [61] [51] [6] []].
 Proof. exact honest_accepted. Qed.
+
+(* ======================================================================================
+   Bridge client -> plan -> rows (C07 -> C14 -> C11).  Model/BridgeCells.v, Proofs/BridgeCellsP.v.
+   "On an honest node every stored block-data cell is the NODE's value of the declared field."
+   [nch]: the node's chain (client-level blocks with every payload, index = number; [CE.nch_wf]).
+   [CE.honest_on nch s l w]: every reply of the family [w] describes [nch] (soundness of all five
+   reply kinds, item block hashes included; completeness only of the receipts of a requested
+   block); failures / nulls / error members are not excluded -- Get's success is a premise.
+   [CF.reader] / [CF.conv rd]: the field-level reading of the opaque payloads, one projection
+   per field, [CF.field_comp F] = the payload component field F reads; the node's Rows-level
+   item IS [CF.conv rd] of the node's client-level item.  Rows-, plan- and bridge-side names are
+   qualified (Rows., Plan., Filter., CE., CF.); unqualified names are the client's. *)
+From Shovel Require Model.Filter Model.Rows Model.Plan Model.Provides Model.BridgeCacheRows.
+From Shovel Require Import Model.BridgePlanRows Model.BridgeCells Proofs.BridgeCellsP.
+From Shovel Require Proofs.C14P Gen.GlfTables Gen.GetFields.
+
+(* the executable honest reply family of a well-formed chain is honest *)
+Theorem honest_world_is_honest : forall nch s l, CE.nch_wf nch -> CE.honest_on nch s l (CE.honest_world nch s l).
+Proof. exact CEP.honest_world_honest. Qed.
+Print Assumptions honest_world_is_honest.
+
+(* client level, any plan: a successful Get against an honest family delivers, for every block,
+   the node's block of that number -- number; hash and header payload when headers / blocks
+   were fetched; per delivered transaction: the block hash, the node's transaction of that
+   index with its hash, type/from/to when blocks or receipts were requested, the body when
+   blocks were, the receipt payload and exactly the node's logs when receipts were; every
+   delivered log / trace action is a log / trace action of THAT node transaction.
+   (fetch: get_ok_attachment_faithful's base; attach: invariant over the same steps) *)
+Theorem honest_get_delivers_node_components : forall nch p s l w bs,
+  CE.nch_wf nch -> CE.honest_on nch s l w -> (N.to_nat s + N.to_nat l <= length nch)%nat ->
+  get p s l w = Ok bs ->
+  forall b, In b bs ->
+    exists cb, nth_error nch (N.to_nat (b_num b)) = Some cb /\ CE.delivered_components p cb b.
+Proof. exact CEP.get_honest_components. Qed.
+Print Assumptions honest_get_delivers_node_components.
+
+(* "the node has the requested blocks" is needed for plans that fetch neither headers nor
+   blocks (Client.Get then makes up the bare numbers itself) *)
+Theorem components_need_requested_blocks_refuted : ~ CE.components_norange_full.
+Proof. exact CEP.range_premise_needed. Qed.
+Print Assumptions components_need_requested_blocks_refuted.
+
+(* C14's [filled] for the case label of field F under the requests dispatched for flags fl
+   implies: the client plan with those flags writes the payload component F reads
+   (finite check over the regenerated tables, all 28 fields x 32 flag values x 3 modes) *)
+Theorem filled_component_is_written : forall F f fl m, In f Gen.GetFields.get_fields ->
+  Plan.f_name f = Rows.field_name F ->
+  filled C14P.provides_gen (C14P.disp_gen fl) m f ->
+  CF.comp_written (CF.field_comp F) (CF.plan_of_flags fl) = true.
+Proof. exact CFP.filled_field_is_written. Qed.
+Print Assumptions filled_component_is_written.
+
+(* a field whose component is written reads the same value from the delivered items as from the node's *)
+Theorem written_field_is_node_field : forall rd p c ig cb b t ct F lo ao,
+  b_num b = b_num cb -> b_hash b = b_hash cb ->
+  (fetches p = true -> b_hpl b = b_hpl cb) ->
+  t_idx t = t_idx ct -> t_hash t = t_hash ct ->
+  (use_blocks p || use_receipts p = true -> t_tft t = t_tft ct) ->
+  (use_blocks p = true -> t_body t = t_body ct) ->
+  (use_receipts p = true -> t_rcpt t = t_rcpt ct) ->
+  CF.comp_written (CF.field_comp F) p = true ->
+  Rows.field_of F c ig (CF.conv rd b) (CF.conv_tx rd t) lo ao
+  = Rows.field_of F c ig (CF.conv rd cb) (CF.conv_tx rd ct) lo ao.
+Proof. exact CFP.field_of_components. Qed.
+Print Assumptions written_field_is_node_field.
+
+(* the reading refines the reader of the cache->rows bridge: same conversion *)
+Theorem reading_is_cache_rows_reading : forall rd b,
+  BridgeCacheRows.C11V.conv (CF.to_c11v rd) b = CF.conv rd b.
+Proof. exact CFP.conv_c11v. Qed.
+Print Assumptions reading_is_cache_rows_reading.
+
+(* (2) FILLED => EQUAL TO THE NODE'S VALUE.  Declaration d, its request [needs] (with the required
+   names, log fields only for log rows), the plan glf.New selects for it, an honest family, a
+   successful Get: every delivered block is the node's block of its number, every delivered
+   transaction a node transaction of that block, its logs / trace actions are logs / trace
+   actions of that node transaction, and for EVERY field F the row builder reads for d,
+   [Rows.field_of F] on the delivered items equals [Rows.field_of F] on the node's items
+   ([CF.delivered_is_node]).  Uses get_ok_* (what Get returns) and plan_fills_what_rows_read
+   (which request supplies the field). *)
+Theorem honest_get_delivers_node_fields : forall rd nch c d needs s l w bs,
+  CE.nch_wf nch -> (N.to_nat s + N.to_nat l <= length nch)%nat ->
+  plan_request_of d needs ->
+  required_present (mode_of (Rows.indexing Rows.fixed d)) needs ->
+  log_fields_only_in_log_mode Gen.GetFields.get_fields (mode_of (Rows.indexing Rows.fixed d)) needs ->
+  CE.honest_on nch s l w ->
+  get (CF.plan_of_flags (Plan.new Gen.GlfTables.glf_tables Gen.GlfTables.glf_steps needs)) s l w = Ok bs ->
+  forall b, In b bs -> CF.delivered_is_node rd nch c d b.
+Proof. exact CFP.honest_get_delivers_node_fields_l. Qed.
+Print Assumptions honest_get_delivers_node_fields.
+
+(* (3) composed with stored_block_cells_are_fetched (C11 + C14): every row Insert emits for the
+   delivered blocks was built for ONE transaction ct (log / trace action of ct) of ONE block cb
+   of the node's chain inside the requested range, and every block-data cell bound to a field
+   name holds that field of THAT node item -- no zero default of a request not made, no value
+   of another block, transaction, log or trace. *)
+Theorem stored_cells_are_node_values : forall rd nch c d needs dbs s l w bs rows r,
+  CE.nch_wf nch -> (N.to_nat s + N.to_nat l <= length nch)%nat ->
+  plan_request_of d needs ->
+  required_present (mode_of (Rows.indexing Rows.fixed d)) needs ->
+  CE.honest_on nch s l w ->
+  get (CF.plan_of_flags (Plan.new Gen.GlfTables.glf_tables Gen.GlfTables.glf_steps needs)) s l w = Ok bs ->
+  Rows.insert Rows.fixed d c dbs (map (CF.conv rd) bs) = Ok rows -> In r rows ->
+  exists cb ct lo ao,
+    nth_error nch (N.to_nat (b_num cb)) = Some cb /\ s <= b_num cb < s + l
+    /\ In ct (b_txs cb)
+    /\ item_of_mode (Rows.indexing Rows.fixed d) (CF.conv_tx rd ct) lo ao
+    /\ forall k bd F, nth_error (Rows.d_block d) k = Some bd -> Rows.bd_name bd = Filter.s2b (Rows.field_name F) ->
+         nth_error r (bd_offset d + k) = Rows.field_of F c (Rows.d_name d) (CF.conv rd cb) (CF.conv_tx rd ct) lo ao
+         /\ Rows.field_of F c (Rows.d_name d) (CF.conv rd cb) (CF.conv_tx rd ct) lo ao <> None.
+Proof. exact CFP.stored_cells_are_node_values_l. Qed.
+Print Assumptions stored_cells_are_node_values.
+
+(* (4) the dual, as far as C07 goes (get_rejects_corruption, constructors CRcNumber, CRcHash,
+   CLgRange, CLgHash, CTrNumber, CTrHash): ANY reply family in which a receipt / log / trace at
+   a position names another block number, or -- when headers / blocks are fetched -- another
+   block hash than the header fetched for its number, is refused.  Not refused (not detectable
+   by a structural check): a family that is honest about ANOTHER chain nch' (a node that
+   reports other payload values consistently): theorem (2) then holds for nch'. *)
+Theorem value_of_other_block_refused : forall p s l w,
+  (exists es i e rs r, attach_kind p = AReceipts /\ w_receipts w = RBody es /\ (i < N.to_nat l)%nat
+      /\ nth_error es i = Some e /\ re_res e = Some rs /\ In r rs
+      /\ (r_bnum r <> s + N.of_nat i
+          \/ exists bes be b, fetches p = true /\ block_reply p w = RBody bes /\ nth_error bes i = Some be
+               /\ be_res be = Some b /\ r_bhash r <> b_hash b))
+  \/ (exists lb lo x, attach_kind p = ALogs /\ w_logs w = RBody lb /\ lb_logs lb = Some lo /\ In (Some x) lo
+      /\ (~ (s <= lr_bnum x < s + l)
+          \/ exists bes be b i, fetches p = true /\ block_reply p w = RBody bes /\ (i < N.to_nat l)%nat
+               /\ nth_error bes i = Some be /\ be_res be = Some b /\ lr_bnum x = s + N.of_nat i
+               /\ lr_bhash x <> b_hash b))
+  \/ (exists i e ts t, use_traces p = true /\ (i < N.to_nat l)%nat /\ nth_error (w_traces w) i = Some (RBody e)
+      /\ te_res e = Some ts /\ In t ts
+      /\ (tr_bnum t <> s + N.of_nat i
+          \/ exists bes be b, fetches p = true /\ block_reply p w = RBody bes /\ nth_error bes i = Some be
+               /\ be_res be = Some b /\ tr_bhash t <> b_hash b))
+  -> get p s l w = Err.
+Proof. exact CEP.other_block_refused. Qed.
+Print Assumptions value_of_other_block_refused.
+
+(* non-vacuity: ERC-20 Transfer, block fields block_time, tx_status, log_addr (+ required), a
+   two-block chain (block 1: a failed transaction without logs, then one with two Transfers).
+   Plan = headers + receipts; the honest family is accepted; the three rows COPY receives from
+   the DELIVERED blocks are the rows built from the NODE's blocks (the transaction bodies are
+   not fetched -- and not read); every premise of (2) / (3) holds.  Last line: the same run
+   against a node reporting status 0 for the first transaction is accepted too and stores
+   other cells -- C07 validates structure, not values. *)
+Example ex_cells_are_node_values :
+  let pl := CF.plan_of_flags (Plan.new Gen.GlfTables.glf_tables Gen.GlfTables.glf_steps erc20_request) in
+  let w := CE.honest_world CF.ex_nch 0 2 in
+  pl = mkPlan true false true false false
+  /\ CE.nch_wf CF.ex_nch /\ CE.honest_on CF.ex_nch 0 2 w /\ (N.to_nat 0 + N.to_nat 2 <= length CF.ex_nch)%nat
+  /\ match get pl 0 2 w with
+     | Ok bs => Rows.insert_cells Rows.fixed erc20_decl erc20_ctx [] (map (CF.conv CF.ex_rd) bs) = Ok CF.ex_cells
+                /\ map (fun b => map t_body (b_txs b)) bs = [[[]]; [[]; []]]
+     | _ => False
+     end
+  /\ Rows.insert_cells Rows.fixed erc20_decl erc20_ctx [] (map (CF.conv CF.ex_rd) CF.ex_nch) = Ok CF.ex_cells
+  /\ match get pl 0 2 (CE.honest_world CF.ex_nch_lie 0 2) with
+     | Ok bs => Rows.insert_cells Rows.fixed erc20_decl erc20_ctx [] (map (CF.conv CF.ex_rd) bs) <> Ok CF.ex_cells
+     | _ => False
+     end.
+Proof.
+  split; [vm_compute; reflexivity|]. split; [exact CFP.ex_nch_wf|].
+  split; [exact (CEP.honest_world_honest CF.ex_nch 0 2 CFP.ex_nch_wf)|].
+  split; [vm_compute; repeat constructor|].
+  split; [vm_compute; split; reflexivity|]. split; [vm_compute; reflexivity|].
+  vm_compute. intros H; discriminate H.
+Qed.
